@@ -92,7 +92,10 @@ class MatlabDefCompiler:
         return name
 
     def generate_field(self, top_field: str, name: str, value: Any) -> str:
-        name = name.replace(f"{top_field}_", "", 1)  # strip top_field from fieldname
+        # strip a leading top_field prefix from the fieldname (only as a prefix:
+        # CMT_X, ORCHID_PC or PYRAMID_CTRL keep their names)
+        if name.startswith(f"{top_field}_"):
+            name = name[len(top_field) + 1 :]
         name = self.sanitize_name(name)
         return f"{self.struct_name}.{top_field}.{name} = {value};\n"
 
